@@ -206,7 +206,7 @@ class Gen:
             # instruction name - of any spelling, including bare aliases whose initial is d / f / x / s
             if n[0] == 'op' and n[1] in ('PUSH1', 'PUSH2') and len(syms) == 3 and syms[1].startswith('d') and self.rng.random() < .5:
                 nxt = parts[i + 1] if i + 1 < len(parts) else None
-                follows_name = nxt is not None and not nxt[1] and nxt[0][0] == 'op' and nxt[2] and nxt[2][0][:1].isalpha() and not nxt[2][0].lower().startswith(('push', 'op_push'))
+                follows_name = nxt is not None and not nxt[1] and nxt[0][0] in ('op', 'nop') and nxt[2] and nxt[2][0][:1].isalpha() and not nxt[2][0].lower().startswith(('push', 'op_push'))
                 if follows_name:
                     syms = [syms[0], syms[2]]
             out.extend(com); out.extend(syms)
